@@ -198,6 +198,7 @@ Lemma monitor_C05_needs_uid_inj : exists sc c0,
   (forall c, In c (objs c0) -> (c_uid c < next_uid c0)%N) /\
   (forall n l, sc_inv_ns sc = Some n -> inv c0 = Some l -> In n (map c_id (objs c0)) \/ In n l) /\
   (o_destroy (sc_opts sc) = true -> o_prune (sc_opts sc) = true) /\
+  wf_fin_b sc c0 = true /\
   mon_C05_order sc c0 (run sc c0) = true /\ mon_C05 sc c0 (run sc c0) = false.
 Proof.
   exists c05_alias_sc, c05_alias_c0. cbn [c05_alias_sc c05_alias_c0 sc_opts sc_local sc_inv_ns o_destroy o_prune objs inv next_uid map l_id c_id].
@@ -206,6 +207,7 @@ Proof.
   split; [intros c [<-|[<-|[]]]; reflexivity|].
   split; [intros n l H; discriminate H|].
   split; [intros H; discriminate H|].
+  split; [vm_compute; reflexivity|].
   split; vm_compute; reflexivity.
 Qed.
 
@@ -220,14 +222,7 @@ Definition c05_ex_c0 : cluster :=
   mkCl [mkC 0 5%N OOurs false [] false 1 None; mkC 2 6%N OOurs false [] false 1 None] (Some [0; 2]) 8%N.
 
 Lemma c05_ex_WF : WF c05_ex_sc c05_ex_c0.
-Proof.
-  unfold WF. cbn [c05_ex_sc c05_ex_c0 sc_opts sc_local sc_inv_ns o_destroy o_prune objs inv next_uid map l_id c_id].
-  split; [intros H; discriminate H|].
-  split; [constructor; [intros [H|[]]; discriminate H|constructor; [intros []|constructor]]|].
-  split; [intros c [<-|[<-|[]]]; reflexivity|].
-  split; [intros c c' [<-|[<-|[]]] [<-|[<-|[]]] H; try reflexivity; discriminate H|].
-  split; [intros n l H; discriminate H|reflexivity].
-Qed.
+Proof. apply wf_b_spec. vm_compute. reflexivity. Qed.
 
 Example c05_ex_run :
   map p_id (pl_prune (plan_of c05_ex_sc c05_ex_c0)) = [0; 2] /\
